@@ -28,7 +28,13 @@ func vhC23FSRoot() {
 		fsys.PathRewrite = NewPathPrefixStripper(n)
 	}
 	var target []byte
-	if vBool("dotdotShape") {
+	if shape := vChoose("shape", 3); shape == 2 {
+		// percent-encoded dots only: "/%2?%2?/s" with the two low nibbles free
+		target = append([]byte("/%2"), vBytes("a", 1)...)
+		target = append(target, "%2"...)
+		target = append(target, vBytes("b", 1)...)
+		target = append(target, "/s"...)
+	} else if shape == 1 {
 		// a shape the free tail is too short for: "/x../y" keeps its dots
 		// through normalisation and a prefix stripper can expose them
 		target = append([]byte("/"), vBytes("a", 1)...)
